@@ -296,6 +296,11 @@ def state_seq_case(run, drv, pending, case):
                     c_.magnitude_counts(mag_bins=5)
                 elif what == "smc-bins-str":
                     c_.spatial_magnitude_counts(mag_bins="abc")
+                elif getattr(c_, "filters", None):
+                    # the catalog carries filter statements from an earlier step: filter() without arguments is then a LEGAL call
+                    # (it re-applies them to the events as they are now), not a rejected one — left out in that state
+                    run.count("stateseq:rejected-call:filter-no-statement:left-out(catalog-carries-filters)")
+                    continue
                 else:
                     c_.filter()
                 run.count(f"stateseq:rejected-call:{what}:accepted")
